@@ -142,3 +142,59 @@ pub fn ref_from_float(fmt: &FloatFmt, bits: u64) -> RefFromFloat {
         }
     }
 }
+
+/// Fast version of `ref_from_float` for f32 bit patterns in plain u128 arithmetic
+/// (sig * 10^18 < 2^84).  Used for the exhaustive enumeration of all 2^32 patterns;
+/// cross-checked against the big-integer version on a sample of every run.
+pub fn ref_from_f32_fast(bits: u32) -> RefFromFloat {
+    let neg = bits >> 31 == 1;
+    let be = ((bits >> 23) & 0xff) as i32;
+    let frac = (bits & 0x7f_ffff) as u128;
+    if be == 0xff {
+        return if frac == 0 { RefFromFloat::Infinite } else { RefFromFloat::NotANumber };
+    }
+    let (sig, exp): (u128, i32) = if be == 0 { (frac, -149) } else { (frac | 0x80_0000, be - 150) };
+    if sig == 0 {
+        return RefFromFloat::Ok { coeff: 0, scale: 0 };
+    }
+    const P18: u128 = 1_000_000_000_000_000_000;
+    let (mut k, mut scale): (u128, u8) = if exp >= 0 {
+        // integral value sig * 2^exp; must stay below 2^127 after normalisation (scale 0)
+        if exp > 103 {
+            // sig >= 1: sig * 2^exp >= 2^104 ... may still fit: decide exactly
+            let bitlen = 128 - sig.leading_zeros() as i32 + exp;
+            if bitlen > 127 {
+                // magnitude >= 2^127: only exactly -2^127 is the edge case
+                if neg && sig.count_ones() == 1 && bitlen == 128 {
+                    return RefFromFloat::EdgeMin;
+                }
+                return RefFromFloat::Overflow;
+            }
+        }
+        (sig << exp, 0)
+    } else {
+        let e = (-exp) as u32;
+        let num = sig * P18; // < 2^84
+        if e >= 128 {
+            (0, 18)
+        } else {
+            let q = num >> e;
+            let r = num & ((1u128 << e) - 1);
+            let half = 1u128 << (e - 1);
+            let up = r > half || (r == half && q & 1 == 1);
+            (q + up as u128, 18)
+        }
+    };
+    if k == 0 {
+        return RefFromFloat::Ok { coeff: 0, scale: 0 };
+    }
+    while scale > 0 && k % 10 == 0 {
+        k /= 10;
+        scale -= 1;
+    }
+    if k > i128::MAX as u128 {
+        return RefFromFloat::Overflow;
+    }
+    let c = k as i128;
+    RefFromFloat::Ok { coeff: if neg { -c } else { c }, scale }
+}
